@@ -27,9 +27,11 @@ fn prog_for(prop: &str, tier: u8, seed: u64, idx: usize) -> Prog {
         3 => 1 + rng.below(2),
         _ => 1,
     };
+    // C15 runs every program nine times: keep its 3-thread programs to <= 5 operations
+    let max_mem = if prop == "C15" && t >= 3 { 5 } else { 6 };
     let l = 1 + rng.below(2);
     let a = if rng.chance(1, 3) { Alpha { sc_only: true, ..a } } else { a };
-    let mut p = random_prog(&mut rng, t, k, l, 6, a);
+    let mut p = random_prog(&mut rng, t, k, l, max_mem, a);
     if prop == "C19" && idx % 3 == 0 {
         // main = one access followed by 1-2 stores: the shape placement 7 (region after an explorable decision) decides
         let first = if p.threads[0].first().map(|o| o.is_mem()).unwrap_or(false) { p.threads[0][0] } else { Op::Load { loc: 0, ord: Ord_::Rlx } };
@@ -57,7 +59,7 @@ pub fn total(prop: &str, tier: u8) -> usize {
 }
 
 fn base_cfg(tier: u8) -> Cfg {
-    Cfg { iter_cap: if tier == 0 { 20_000 } else { 100_000 }, keep_paths: true, keep_seq: true, ..Default::default() }
+    Cfg { iter_cap: if tier == 0 { 40_000 } else { 100_000 }, keep_paths: true, keep_seq: true, ..Default::default() }
 }
 
 fn add_path_viol(rec: &mut Rec, rep: &pathmon::PathReport, ctx: &str) {
